@@ -93,6 +93,13 @@ Definition tags_closed (t : tree) (s : list field) : Prop :=
 (* every _Field object hangs in the tree once *)
 Definition fids_unique (t : tree) : Prop := NoDup (map e_fid (flat t [])).
 
+(* a laid-out bit field: every field object hangs in the tree once, every field is placed inside the bit
+   field, fields that can be present together are disjoint *)
+Record sound_layout (L : Z) (t : tree) (s : list field) : Prop := {
+  sl_unique : fids_unique t;
+  sl_placed : all_placed L t s;
+  sl_disjoint : no_overlap t s }.
+
 (* the requirement tuple of a child only names fields of its parent node *)
 Fixpoint keys_local (t : tree) : bool :=
   match t with
